@@ -196,6 +196,40 @@ def c17(ctx):
                     kind = 'spec'
                     ctx.violation(kind, f'get_file_metadata({hs}) returned {str(res)[:200]}, expected {str(want)[:200]}',
                                   {'hashes': hs, 'length': ln})
+        # ... and through the consumers of that layer: verify_path on an entry that lists an unknown / unavailable name beside right digests
+        #     (the file has the recorded size), update_entry_for_path asked for such a name: reported, never skipped
+        import gemato.manifest as gmf
+        import gemato.exceptions as gex
+        data = big[:300]
+        p = os.path.join(td, 'v')
+        open(p, 'wb').write(data)
+        unavailable = [n for n, l in (('WHIRLPOOL', 'whirlpool'), ('RMD160', 'ripemd160'), ('STREEBOG256', 'streebog256'), ('STREEBOG512', 'streebog512'))
+                       if l not in hashlib.algorithms_available]
+        for odd in ['FOOHASH', 'SHA9000', 'sha1', 'SHA-512'] + unavailable[:2]:
+            for good in ([], ['SHA1'], ['SHA512', 'MD5']):
+                cks = {g: ref_digest({'SHA1': 'sha1', 'SHA512': 'sha512', 'MD5': 'md5'}[g], data) for g in good}
+                cks[odd] = '00'
+                k += 1
+                ent = gmf.ManifestEntryDATA('v', len(data), dict(cks))
+                try:
+                    vres = ['returned', gv.verify_path(p, ent)]
+                except gex.UnsupportedHash as e:
+                    vres = ['UnsupportedHash']
+                except Exception as e:
+                    vres = ['raised', type(e).__name__]
+                if vres != ['UnsupportedHash']:
+                    ctx.violation('spec', f'verify_path on an entry listing the unsupported hash name {odd!r} (beside {good}) {str(vres)[:120]}: the name was not reported',
+                                  {'entry_checksums': cks, 'result': str(vres)})
+                ent2 = gmf.ManifestEntryDATA('v', 0, {})
+                try:
+                    ures = ['returned', gv.update_entry_for_path(p, ent2, hashes=good + [odd])]
+                except gex.UnsupportedHash:
+                    ures = ['UnsupportedHash']
+                except Exception as e:
+                    ures = ['raised', type(e).__name__]
+                if ures != ['UnsupportedHash']:
+                    ctx.violation('spec', f'update_entry_for_path asked for the unsupported hash name {odd!r} (beside {good}) {str(ures)[:120]}: the name was not reported',
+                                  {'hashes': good + [odd], 'result': str(ures)})
         # the size reported by fstat is only a hint (sysfs, network filesystems, a file that grows while it is read):
         # digests and __size__ describe the bytes read, for any hash set - the empty one included
         import stat as _stat
